@@ -92,7 +92,8 @@ func (f *Defun) Call(s *slip.Scope, args slip.List, depth int) (result slip.Obje
 			_, _ = fmt.Fprintf(w, "WARNING: redefining %s:%s in defun\n", slip.CurrentPackage.Name, low)
 		}
 	}
-	pkg.DefLambda(low, lc, fc, slip.FunctionSymbol)
+	// From here on lc, which fc refers to, is the Lambda registered for the name.
+	lc = pkg.DefLambda(low, lc, fc, slip.FunctionSymbol)
 	if 0 < len(s.Parents()) {
 		lc.Closure = s
 	}
